@@ -1,6 +1,6 @@
 """Property -> clauses -> rule instances.  Each check_Cxx fills a Report; it never prints."""
 from .model import AnalysisError
-from .rules import twin, effect, work, feedback, models, misc, state, fresh, pda_rules, build, dispatch, io as iorules, closed, ka_rules, cyk, bound
+from .rules import twin, effect, work, feedback, models, misc, state, fresh, pda_rules, build, dispatch, io as iorules, closed, ka_rules, cyk, bound, order
 
 ALG = ['dfa_algorithms', 'nfa_algorithms', 'pda_algorithms', 'tm_algorithms', 'cfg_algorithms', 'regexp_algorithms']
 
@@ -49,6 +49,14 @@ def _closed(ctx, rep, specs, floor):
         raise AnalysisError('fewer than {} closure requirement sites found in {}'.format(floor, specs))
 
 
+ACCEPTANCE = ['dfa_algorithms.dfa_accepts_word', 'nfa_algorithms.nfa_accepts_word', 'nfa_algorithms.epsilon_closure', 'nfa_algorithms._nfa_cache',
+              'pda_algorithms.pda_accepts_word', 'pda_algorithms.pda_epsilon_closure', 'pda_algorithms.pda_do_transition', 'tm_algorithms.tm_accepts_word',
+              'cfg_algorithms.cfg_accepts_word', 'cfg_algorithms.cfg_cyk_matrix', 'regexp_algorithms.regexp_accepts_word']
+CHOICE_FUNCS = ['dfa_algorithms.dfa_minimize', 'dfa_algorithms.dfa_from_table', 'dfa_algorithms.dfa_quotient', 'dfa_algorithms.dfa_hopfcroft',
+                'regexp_algorithms.gnfa_minimize', 'cfg_algorithms.cfg_eliminate_unit_rules_in_place', 'nfa_algorithms.nfa_find_epsilon_path',
+                'pda_algorithms.pda_find_epsilon_path', 'dfa_algorithms.dfa_isomorphic', 'dfa_algorithms.dfa_isomorphic1', 'nfa_algorithms.nfa_to_dfa']
+
+
 def check_C01(ctx, rep):
     rep.clauses_decided += ['epsilon_closure is a saturation that drops nothing and stops only on an empty worklist (R-WORK W1/W2/W4)',
                             'reads of a partial NFA transition map are guarded (R-EFFECT c)',
@@ -64,6 +72,7 @@ def check_C01(ctx, rep):
     if n < 3:
         raise AnalysisError('fewer than 3 NFA transition-map reads found')
     _closed(ctx, rep, ['nfa_algorithms.nfa_accepts_word'], 2)
+    order.check_independence(ctx, rep, F(ctx, 'dfa_algorithms.dfa_accepts_word', 'nfa_algorithms.nfa_accepts_word', 'nfa_algorithms.epsilon_closure', 'nfa_algorithms._nfa_cache'))
     state.check_hidden_state(ctx, rep, modules=['nfa_algorithms', 'dfa_algorithms'])
     build.check_invariants(ctx, rep)
 
@@ -120,6 +129,7 @@ def check_C04(ctx, rep):
     mins = F(ctx, 'dfa_algorithms.dfa_minimize', 'dfa_algorithms.dfa_quotient', 'dfa_algorithms.dfa_hopfcroft')
     work.check_one_shot_iterators(ctx, rep, mins)
     misc.check_minimiser_siblings(ctx, rep, mins)
+    order.check_independence(ctx, rep, mins + F(ctx, 'dfa_algorithms.dfa_from_table'), must=False)
     if not misc.check_slots(ctx, rep, ctx.prog.func('dfa_algorithms.dfa_from_table')):
         rep.note('dfa_from_table no longer builds its blocks in a placeholder list (R-SLOT has no instance)')
     _effect_on(ctx, rep, ['dfa_algorithms.dfa_minimize', 'dfa_algorithms.dfa_from_table', 'dfa_algorithms.dfa_quotient', 'dfa_algorithms.dfa_hopfcroft'])
@@ -488,7 +498,9 @@ def check_C19(ctx, rep):
                             'no result shares an in-place-mutable field with an argument (R-EFFECT b)',
                             'no hidden insertion through defaultdict reads of partial maps (R-EFFECT c)',
                             'in-place / pure twin pairing (R-TWIN)',
-                            'configuration read at call time, flag-guarded code only prints, no cross-call memo feeds a result (R-STATE)']
+                            'configuration read at call time, flag-guarded code only prints, no cross-call memo feeds a result (R-STATE)',
+                            'acceptance tests and enumerators are PROVEN-INDEPENDENT of set iteration order, or the harmful cut-off pattern is reported; choice points of minimisers / eliminations / searches are enumerated (R-ORDER)',
+                            'no one-shot iterator is consumed in a loop it was created outside of (R-WORK W6)']
     rep.not_decided += ['equality of languages across iteration orders where the representation legitimately depends on the order']
     fs = effect.pure_functions(ctx)
     effect.check_no_operand_mutation(ctx, rep, fs)
@@ -503,6 +515,8 @@ def check_C19(ctx, rep):
         raise AnalysisError('fewer than 5 logging/verbose-guarded sites found')
     state.check_hidden_state(ctx, rep)
     work.check_one_shot_iterators(ctx, rep, lib)
+    order.check_independence(ctx, rep, F(ctx, *(ACCEPTANCE + ENUMERATORS + ['regexp_algorithms.regexp_words_up_to_n', 'language_generator.compare_languages', 'language_generator.generate_language'])))
+    order.check_independence(ctx, rep, F(ctx, *CHOICE_FUNCS), must=False)
     rep.extra['effect_rounds'] = ctx.effects.rounds
     rep.extra['calls_resolved'] = sum(s.calls - s.unresolved for s in ctx.effects.summaries.values())
     rep.extra['calls_unresolved'] = sum(s.unresolved for s in ctx.effects.summaries.values())
